@@ -37,7 +37,8 @@ Obl(e) ==
          <<"truncated-id-is-last-byte", e.trunc = e.sha_pub[32]>>,
          <<"rsa-key-serialized-as-pss-spki", e.kind \in {"t2", "t3"} => e.pub = SpkiPss(e.n, e.e)>> >>
     [] e.op = "NameKey" -> <<
-         <<"well-formed-name-key-decodes", e.decoded>>,
+         \* (a key followed by further bytes in its buffer may be refused; if it is accepted it is the key its own bytes encode)
+         <<"well-formed-name-key-decodes", e.decoded \/ e.tail_len > 0>>,
          <<"encap-key-encoding", e.decoded => e.marshal = EncEncap(e.fields)>>,
          <<"decoded-name-key-re-encodes-to-what-was-received", e.decoded => e.marshal = e.orig>>,
          <<"name-key-id-is-sha256-of-encoding", e.decoded => e.name_key_id = e.sha_marshal>> >>
